@@ -475,6 +475,8 @@ async fn run_proxy(sc: &Value) -> Value {
     for v in sc.get("client_auth").and_then(|x| x.as_array()).cloned().unwrap_or_default() {
         if let Some(t) = v.as_str() {
             client_auth.push_str(&format!("x-ms-azure-host-authorization: {}\r\n", t));
+        } else if let (Some(n), Some(t)) = (v.get(0).and_then(|x| x.as_str()), v.get(1).and_then(|x| x.as_str())) {
+            client_auth.push_str(&format!("{}: {}\r\n", n, t)); // [name as spelled by the client, value]
         }
     }
     let head = format!(
